@@ -6,6 +6,7 @@ dirs=("$@"); [ ${#dirs[@]} -eq 0 ] && dirs=(seeded/*/)
 for d in "${dirs[@]}"; do
   d=${d%/}; [ -f "$d/meta.json" ] || continue
   cmd=$(python3 -c "import json,sys; print(json.load(open('$d/meta.json'))['check_run']['command'])")
+  [ -f "$d/patch.head.diff" ] && cmd=$(echo "$cmd" | sed "s#$d/patch.diff#$d/patch.head.diff#")   # re-based onto the final tree
   expect=$(python3 -c "import json,sys; m=json.load(open('$d/meta.json')); print('none' if m['check_run']['caught_by'].startswith('none') else 'caught')")
   out=$(SEED_WT=/var/tmp/seedwt-recheck SEED_BUILD=/var/tmp/build-seed-recheck $cmd 2>&1 | grep -E "^\[C[0-9]+\]" | tr '\n' ' ')
   if echo "$out" | grep -q VIOLATION; then v=CAUGHT; elif [ "$expect" = none ]; then v=UNDETECTED-AS-RECORDED; else v=MISSED; fi
